@@ -21,8 +21,11 @@ CORR_ONLY = ["accuracy of the Boost rules (trapezoidal, gauss<30>, gauss_kronrod
              "(C16 proves the Spherical_Coordinates algebra)"]
 ASSUMPTIONS = ["the model's 1-D rule is the exact 17-point Newton-Cotes rule (exact to degree 17): the model value for a polynomial "
                "integrand is the exact iterated integral through the coded wrappers (validated by the driver self-test)",
-               "Adaptive-Simpson is asked for 1e-9 * |first Simpson estimate| (Find_Epsilon); its accuracy is judged against "
-               "1e-9 * (integral of |f| + |first Simpson estimate|)"]
+               "Adaptive-Simpson is asked for eps = 1e-9 * |first Simpson estimate| (Find_Epsilon); its accuracy is judged against "
+               "4*eps (the bound C03 proves under the regularity hypothesis) + 1e-9 * integral of |f|; observed on the unchanged tree: "
+               "errors up to 2.8 * eps, i.e. 2.8e-9 relative, on a Lorentzian near the end of the interval",
+               "Trapezoidal: Boost stops after 2048 panels, the leading Euler-Maclaurin term bounds the error by 0.89e-6 * integral |f| "
+               "on the whole damped-oscillation domain (<= 2 periods, damping <= e^-2), so 1e-6 is met with ~10% margin"]
 TRUSTED = ["mpmath.quad (30 digits) as reference for the non-polynomial families",
            "harness interposes std::random_device::_M_getval so that the Monte-Carlo front ends are reproducible"]
 
@@ -198,7 +201,7 @@ def generate(tier, seed, ctx):
     for nm in BOGUS + MC:
         add("c13.outcome1 %s %s %s" % (nm, hx(0.0), hx(1.0)), cls="bad1")
     for nm in BOGUS[:3]:
-        add("c13.outcome1 %s %s %s" % (nm, hx(1.5), hx(1.5)), cls="bad1eq")     # equal limits return 0 first
+        add("c13.outcome1 %s %s %s" % (nm, hx(1.5), hx(1.5)), cls="bad1eq")     # unknown name on a degenerate interval: diagnostic (fix d39b5c1)
     for nm in BOGUS + METHODS[:2] + MC[:1]:
         add("c13.outcome2 %s" % nm, cls="bad2")
         add("c13.outcome3 %s" % nm, cls="bad3")
@@ -333,8 +336,6 @@ def compare(rq, impl, model, ctx):
     if op.startswith("c13.outcome"):
         ctx["nontrivial"].add((op, a[0], tag(model)))
         out = list(fs)
-        if op == "c13.outcome1" and tag(model) == "ok" and tag(impl) == "ok" and a[1] == a[2]:
-            pass
         return out
     if op == "c13.checklimits":
         if not both:
@@ -397,7 +398,7 @@ def compare(rq, impl, model, ctx):
         else:
             f = _fams(a, 4, 1)[0]
             I, A, S = _fam_ref(f, x1, x2)
-            ref = Fraction(float(I)) + Fraction(float(I - float(I))); sc = Fraction(float(A + (S if m == "Adaptive-Simpson" else 0)))
+            ref = Fraction(float(I)) + Fraction(float(I - float(I))); sc = Fraction(float(A + (4 * S if m == "Adaptive-Simpson" else 0)))
         d = abs(Fraction(v) - ref)
         _worst(ctx, "1D %s err/tol" % m, float(d / (rel * sc)) if sc else 0.0)
         if d > rel * sc:
@@ -448,7 +449,7 @@ def compare(rq, impl, model, ctx):
         for f, (x1, x2) in zip(fams, [(L[2 * i], L[2 * i + 1]) for i in range(dim)]):
             I, A, S = _fam_ref(f, x1, x2)
             ref *= Fraction(float(I)) + Fraction(float(I - float(I)))
-            sc *= Fraction(float(A + (S if m == "Adaptive-Simpson" else 0)))
+            sc *= Fraction(float(A + (4 * S if m == "Adaptive-Simpson" else 0)))
         rel = rel * dim
     d = abs(Fraction(v) - ref)
     _worst(ctx, "%dD %s %s err/tol" % (dim, m, op[4:]), float(d / (rel * sc)) if sc else 0.0)
@@ -472,7 +473,7 @@ def oracle_only(rq, impl, ctx):
     elif op.startswith("c13.outcome"):
         nm = a[0]
         if op == "c13.outcome1":
-            known = nm in METHODS or a[1] == a[2]
+            known = nm in METHODS
         elif op == "c13.outcomemc":
             known = nm in MC
         else:
